@@ -70,7 +70,10 @@ class C07(conncheck.ConnCheck):
         # time-outs must end the iteration by themselves: past the depth bound the server stays silent (not EOF)
         out.append({'name': 'close-timeout', 'server': ['eof', 'text', 'ping', 'close-1000', 'silence'], 'handshake': ['hs-ok'], 'app': ['close'],
                     'depth': 3, 'max_dev': 1, 'connect': {'close_timeout': 10}, 'timers': 'absolute', 'drop': (), 'silent_tail': True})
-        out.append({'name': 'ping-timeout', 'server': ['eof', 'text', 'pong', 'silence'], 'handshake': ['hs-ok'], 'app': ['send_text'],
+        out.append({'name': 'close-timeout-repeated-close', 'server': ['eof', 'text', 'close-1000', 'silence'], 'handshake': ['hs-ok'], 'app': ['close'],
+                    'depth': 2, 'max_dev': 1, 'connect': {'close_timeout': 10}, 'timers': 'absolute', 'drop': (), 'silent_tail': True,
+                    'sticky': True, 'max_waits': 60})
+        out.append({'name': 'ping-timeout', 'server': ['eof', 'text', 'pong', 'close-1000', 'silence'], 'handshake': ['hs-ok'], 'app': ['send_text', 'close'],
                     'depth': 3, 'max_dev': 1, 'connect': {'ping_timeout': 7, 'ping_rate': 0}, 'timers': 'absolute', 'drop': (),
                     'silent_tail': 'always'})
         for f in ('resolve', 'socket', 'connect-all', 'connect-first', 'request-write', 'request-write-arbitrary'):
